@@ -1,5 +1,7 @@
 (* Correspondence check for C25: one write request through the real filer write
-   handlers, with the entry stored under the path before and after it.
+   handlers, with the entries stored under the two candidate paths (URL path, URL
+   path + "/" + file name) before and after it, the chunks handed to DeleteChunks,
+   the chunks left unreferenced, and a full + ranged GET through the real read handler.
 
    Small cases carry every byte (chunk sizes of a few bytes, entered through the
    verif hook); Big cases went through the real autoChunk (chunk sizes are
@@ -36,55 +38,113 @@ Definition status_eqb (a b : status) : bool :=
 
 (* ================= Small cases ================= *)
 
+Definition node_eqb (a b : node) : bool :=
+  match a, b with
+  | NMissing, NMissing => true
+  | NFile x, NFile y => entry_eqb x y
+  | NDir x, NDir y => entry_eqb x y
+  | _, _ => false
+  end.
+
+(* multiset equality of byte strings (order of completion of concurrent uploads is not observable) *)
+Fixpoint count_occ_b (x : list N) (l : list (list N)) : nat :=
+  match l with
+  | [] => O
+  | y :: l' => (if bytes_eqb x y then 1 else 0) + count_occ_b x l'
+  end.
+Definition multiset_eqb (a b : list (list N)) : bool :=
+  Nat.eqb (length a) (length b) && forallb (fun x => Nat.eqb (count_occ_b x a) (count_occ_b x b)) a.
+
 Record scase := {
   sc_method : method; sc_append : bool; sc_etc : bool;
   sc_cs : Z; sc_limit : Z;
   sc_body : list N; sc_end : ending;
   sc_upfail : list bool;          (* per chunk index: its upload fails after all retries *)
   sc_md5tab : list N;             (* nth n = tag of md5(body[:n]), n = 0..len *)
-  sc_pre : option entry;          (* stored under the path before the request *)
+  sc_slash : bool;                (* the URL path ends with "/" *)
+  sc_hasname : bool;              (* the file name (PUT: last path element; POST: part file name) is not empty *)
+  sc_parent_file : bool;          (* an ancestor of the URL path is a regular file *)
+  sc_a : node;                    (* stored under the URL path before the request *)
+  sc_b : node;                    (* stored under URL path + "/" + file name before the request *)
+  sc_range : N * N;               (* a byte range [from, from+len) for the ranged GET *)
   (* implementation *)
   si_status : status;
   si_upfail_hit : bool;           (* the stand-ins really served a scripted permanent failure *)
-  si_post : option entry }.
+  si_a : node; si_b : node;       (* the same two paths after the request *)
+  si_deleted : list (list N);     (* contents of this request's uploads that were handed to DeleteChunks *)
+  si_leaked : list (list N);      (* contents of this request's uploads referenced by no entry and not deleted *)
+  si_replaced : N;                (* how many chunks of the entries stored before were handed to DeleteChunks *)
+  si_get : option (list N);       (* body of a real GET of the resolved path after a 201 (None: not 200) *)
+  si_get_range : option (list N)  (* body of a real GET with Range: bytes=from-(from+len-1) (None: not 206) *)
+}.
 
 Definition sc_request (c : scase) : request :=
   {| rq_method := sc_method c; rq_append := sc_append c; rq_etc := sc_etc c;
      rq_cs := sc_cs c; rq_limit := sc_limit c; rq_body := sc_body c; rq_end := sc_end c;
      rq_upfail := sc_upfail c |}.
+Definition sc_fsreq (c : scase) : fsreq :=
+  {| fr_rq := sc_request c; fr_slash := sc_slash c; fr_hasname := sc_hasname c;
+     fr_parent_file := sc_parent_file c |}.
+Definition sc_state (c : scase) : fsstate := {| fs_a := sc_a c; fs_b := sc_b c |}.
 
 (* md5 oracle: only ever asked about prefixes of the body *)
 Definition md5_of_tab (tab : list N) (l : list N) : N := nth (length l) tab 0.
 
-(* the property, judged on what the implementation did *)
+(* ---- the property, judged on what the implementation did (independent of handle_write_fs) ---- *)
+
+(* documented path rule: a URL path that names an existing directory receives the file name *)
+Definition spec_redirect (c : scase) : bool :=
+  negb (sc_slash c) && sc_hasname c && match sc_a c with NDir _ => true | _ => false end.
+
+Definition slice (from len : N) (l : list N) : list N :=
+  firstn (N.to_nat len) (skipn (N.to_nat from) l).
+
 Definition spec_small (c : scase) : bool :=
   let must_fail := is_err (sc_end c) || si_upfail_hit c in
+  let red := spec_redirect c in
+  let pre_t := if red then sc_b c else sc_a c in
+  let post_t := if red then si_b c else si_a c in
+  let pre_o := if red then sc_a c else sc_b c in
+  let post_o := if red then si_a c else si_b c in
   match si_status c with
   | Other => false
-  | Failed => opt_eqb entry_eqb (si_post c) (sc_pre c)       (* nothing committed *)
+  | Failed => node_eqb (si_a c) (sc_a c) && node_eqb (si_b c) (sc_b c)       (* nothing committed *)
   | Created =>
-      negb must_fail &&
-      match si_post c with
-      | None => false
-      | Some e =>
+      negb must_fail && node_eqb post_o pre_o &&
+      match post_t with
+      | NFile e =>
           let expected :=
-            match (if sc_append c then sc_pre c else None) with
-            | Some e0 => read_entry e0 ++ sc_body c            (* immediately after the current end *)
-            | None => sc_body c
+            match (if sc_append c then pre_t else NMissing) with
+            | NFile e0 => Some (read_entry e0 ++ sc_body c)     (* immediately after the current end *)
+            | NMissing => Some (sc_body c)
+            | NDir _ => None
             end in
-          bytes_eqb (read_entry e) expected && (e_size e =? N.of_nat (length expected))
+          match expected with
+          | None => false
+          | Some ex =>
+              bytes_eqb (read_entry e) ex && (e_size e =? N.of_nat (length ex)) &&
+              opt_eqb bytes_eqb (si_get c) (Some ex) &&
+              (let '(from, len) := sc_range c in
+               if (len =? 0) || (N.of_nat (length ex) <? from + len) then true
+               else opt_eqb bytes_eqb (si_get_range c) (Some (slice from len ex)))
+          end
+      | _ => false       (* 201, but no file holds the bytes *)
       end
   end.
 
 Definition check_small (c : scase) : outcome :=
-  let '(st, post) := handle_write (md5_of_tab (sc_md5tab c)) (sc_request c) (sc_pre c) in
-  {| o_corr := status_eqb st (si_status c) && opt_eqb entry_eqb post (si_post c) &&
+  let r := handle_write_fs (md5_of_tab (sc_md5tab c)) (sc_fsreq c) (sc_state c) in
+  {| o_corr := status_eqb (fo_status r) (si_status c) &&
+               node_eqb (fs_a (fo_state r)) (si_a c) && node_eqb (fs_b (fo_state r)) (si_b c) &&
+               multiset_eqb (map ck_data (fo_deleted r)) (si_deleted c) &&
+               multiset_eqb (map ck_data (fo_leaked r)) (si_leaked c) &&
+               (N.of_nat (length (fo_replaced r)) =? si_replaced c) &&
                Bool.eqb (match sc_method c with
                          | PostRaw => false          (* the upload loop is never entered *)
                          | _ => ur_err (upload_of (sc_request c))
                          end) (si_upfail_hit c);
      o_prop := spec_small c;
-     o_trig := None;
+     o_trig := if trigger_append_dir (sc_fsreq c) (sc_state c) then Some 0 else None;
      o_nontrivial := status_eqb (si_status c) Created && negb (is_nil (sc_body c)) |}.
 
 (* ================= Big cases ================= *)
@@ -101,8 +161,10 @@ Record bcase := {
   bc_upfail : list bool;
   bc_slices : list (N * N * N);   (* (a, b, crc32(body[a:b])) for all cut points a<b in {0, k MiB, len} *)
   bc_md5tab : list (N * N);       (* (n, tag of md5(body[:n])) for the cut points *)
+  bc_parent_file : bool;          (* the parent directory of the path is a regular file (and the path is missing) *)
   bc_pre : option sentry;
   bi_status : status;
+  bi_code : N;                    (* the HTTP status code written by filerHandler/autoChunk *)
   bi_upfail_hit : bool;
   bi_post : option sentry }.
 
@@ -153,6 +215,8 @@ Definition big_expected (b : bcase) : status * option sentry * bool :=
                      s_md5 := None |}, false)
           end
       | None =>
+          if bc_parent_file b then (Failed, bc_pre b, false)     (* CreateEntry: "... is a file" *)
+          else
           (Created,
            Some {| s_size := pl_off p;
                    s_inline := if pl_small p =? 0 then None
@@ -161,6 +225,22 @@ Definition big_expected (b : bcase) : status * option sentry * bool :=
                                       slice_crc (bc_slices b) (fst c) (fst c + snd c))) (pl_chunks p);
                    s_md5 := Some (md5_at (bc_md5tab b) (pl_hashed p)) |}, false)
       end
+  end.
+
+(* the status code autoChunk answers with: 400 bad maxMB; 500 not multipart / upload
+   failure / append to inline content; 499 "read input: ..."; 409 "... is a file"; 201 *)
+Definition big_code (b : bcase) : N :=
+  match auto_chunk_size (bc_maxmb_q b) (bc_maxmb_opt b), bc_method b with
+  | None, _ => 400
+  | Some _, PostRaw => 500
+  | Some cs, _ =>
+    let p := plan_upload cs (bc_limit b) (negb (bc_append b)) (bc_etc b)
+                         (bc_len b) (bc_end b) (bc_upfail b) in
+    if pl_err p then 500 else if pl_rerr p then 499
+    else match (if bc_append b then bc_pre b else None) with
+         | Some e => match s_inline e with Some _ => 500 | None => 201 end
+         | None => if bc_parent_file b then 409 else 201
+         end
   end.
 
 (* the chunks tile [base+from, base+len) in order, each holding the body bytes of its own position *)
@@ -212,7 +292,7 @@ Definition spec_big (b : bcase) : bool :=
 Definition check_big (b : bcase) : outcome :=
   let '(st, post, uerr) := big_expected b in
   {| o_corr := status_eqb st (bi_status b) && opt_eqb sentry_eqb post (bi_post b) &&
-               Bool.eqb uerr (bi_upfail_hit b);
+               Bool.eqb uerr (bi_upfail_hit b) && (big_code b =? bi_code b);
      o_prop := spec_big b;
      o_trig := None;
      o_nontrivial := status_eqb (bi_status b) Created && (0 <? bc_len b) |}.
